@@ -252,6 +252,16 @@ def check_declaration(cx: Cx):
                 break
     else:
         cx.ok('R-GUARD', 'add_parameter accepts only str names', where=cx.where(addp), function=addp.qualname)
+    is_str2 = [AEq(App('type', (name,)), Sym('str')), AIsInst(name, Sym('str'))]
+    for p in cx.walker.paths(addp, WalkOptions(unroll=1)):
+        if p.end == 'raise' and p.last.data.get('direct') and p.last.data.get('exc') == 'AttributeError':
+            if not any(implies(p.cond, f_not(a)) is None for a in is_str2):
+                cx.violation('R-GUARD', addp.qualname, 'only-non-string-names-rejected',
+                             f"add_parameter rejects a name under [{p.cond!r}], which does not establish that the name is not a str: legal "
+                             f"string names are refused here although the constructor accepts them", where=cx.where(addp, p.last.line))
+                break
+    else:
+        cx.ok('R-GUARD', 'add_parameter refuses a name (AttributeError) only when it is not a str', where=cx.where(addp), function=addp.qualname)
     pinit = cx.fn(PL + '.__init__')
     okc = True
     ni = 0
